@@ -10,3 +10,8 @@ open Verif.Props.C04
 #print axioms font_weight_ok
 #print axioms font_family_partial
 #print axioms font_family_counterexample
+#print axioms bg_size_ok
+#print axioms bg_repeat_ok
+#print axioms flex_ok
+#print axioms line_drop_ok
+#print axioms dropKeywords_eq
